@@ -54,6 +54,12 @@ def same_text(out, exp):
 def run(ctx):
     mod = extract.load(MOD)
     import debian._deb822_repro as repro
+    # P-10a: the order of a paragraph without duplicated fields IS an OrderedSet (self._kvpair_order); its order_first /
+    # order_last / order_before / order_after call OrderedSet.order_* and nothing else touches the order.  Those, and the
+    # LinkedList they are built on (also the element list of the duplicate-field paragraphs), are verified here from the
+    # real AST of debian._util against the reference list model (same contracts as C09).
+    from props import C09 as _c09
+    _c09.verify_ordering_machinery(ctx)
     from debian._deb822_repro.parsing import Deb822ParagraphElement
     for q in ("Deb822DuplicateFieldsParagraphElement.order_first", "Deb822DuplicateFieldsParagraphElement.order_last",
               "Deb822DuplicateFieldsParagraphElement.order_before", "Deb822DuplicateFieldsParagraphElement.order_after",
@@ -244,7 +250,13 @@ def run(ctx):
         t.case(key=(doc, str(ops)) if ops else None, sample={"document": doc, "operations": ops} if len(ops) >= 3 else None)
     t.done()
     ctx.level = "other"
-    ctx.explanation = "BOUNDED ONLY in this revision (see module docstring)."
+    ctx.explanation = ("PROVED from the real AST of debian._util: the OrderedSet that holds the field order of a paragraph without "
+                       "duplicated fields, and the LinkedList under it (also the element list of duplicate-field paragraphs): "
+                       "order_first / order_last / order_before / order_after move exactly the named item to the stated place and keep "
+                       "every other item's relative order; add / remove / insert keep table and list consistent (same contracts as "
+                       "C09). NOT proved: the paragraph and file element classes of _deb822_repro.parsing themselves (wrappers, "
+                       "duplicate-field relocation, index semantics, separator and newline handling) - BOUNDED part (see module "
+                       "docstring).")
     ctx.assumptions += ["documents are valid apart from duplicated field names (no error tokens)",
                         "where an inserted paragraph lands relative to a free-floating comment is unspecified by the library: "
                         "only paragraph order, field texts and non-merging are compared for insert/append"]
